@@ -246,9 +246,59 @@ def finding_repro_case(chk):
     return Verdict(HELD, "repro-hole-before-anonymous-member", obs=res.get("obs") or {})
 
 
+def fixed_model_cases():
+    """hand-built records run through the full C<->Rust probe on every invocation: shapes whose size / alignment survive a misplaced member
+    (so bindgen's own assertions stay quiet) — anonymous members inside pragma-pack records that bindgen treats as packed(N)"""
+    def sc(c, signed, bits, kind="int"):
+        return G.Scalar(c, kind, signed, bits)
+    ch, sh_, it, ll = sc("char", True, 8), sc("short", True, 16), sc("int", True, 32), sc("long long", True, 64)
+    out = []
+
+    def anon(kw, fields):
+        r_ = G.Record(kw, None)
+        r_.fields = fields
+        return G.Field(None, None, inline=r_)
+
+    def model(name, fields, pragma):
+        m_ = G.Model()
+        r_ = G.Record("struct", name)
+        r_.fields = fields
+        r_.pragma_pack = pragma
+        m_.records.append(r_)
+        m_.decls.append(r_)
+        return m_
+    out.append(("fixed-pack4-anon-struct", model("FP1", [G.Field("c", ch), anon("struct", [G.Field("lo", ch), G.Field("hi", ch)]), G.Field("x", it), G.Field("big", ll)], 4)))
+    out.append(("fixed-pack2-anon-union", model("FP2", [G.Field("s", sh_), G.Field("c", ch), anon("union", [G.Field("a", ch), G.Field("b", G.Array(ch, [3]))]), G.Field("x", it)], 2)))
+    out.append(("fixed-pack4-anon-nested", model("FP4", [G.Field("a", ch), G.Field("b", ch), G.Field("c", ch), anon("struct", [G.Field("p", ch), anon("union", [G.Field("u1", ch), G.Field("u2", sh_)])]),
+                                                        G.Field("w", ll)], 4)))
+    return out
+
+
+def fixed_model_case(chk, t):
+    name, m = t
+    hp = htypes.HeaderProbe(chk.dir(name), m)
+    out = []
+    for oname, flags in (("default", []), ("derives", ["--with-derive-default", "--with-derive-partialeq"])):
+        res = hp.run_optset(oname, flags)
+        probs = htypes.classify(res, oname, m)
+        viol = [p for p in probs if p[0] == "violation"]
+        inc = [p for p in probs if p[0] in ("inconclusive", "deferred-c01")]
+        cname = "%s-%s" % (name, oname)
+        if viol:
+            files = dict(hp.files())
+            files.update(res.get("files", {}))
+            out.append(Verdict(VIOLATED, cname, "\n".join(p[1] for p in viol[:6]), files=files, signature=viol[0][2]))
+        elif inc:
+            out.append(Verdict(INCONCLUSIVE, cname, inc[0][1][:400]))
+        else:
+            out.append(Verdict(HELD, cname, obs=res.get("obs") or {}, nontrivial=True, key=cname))
+    return out
+
+
 def run(chk):
     from .. import hostile
     chk.add(finding_repro_case(chk))
+    chk.map(lambda t: fixed_model_case(chk, t), fixed_model_cases())
     sn = [s_ for s_ in hostile.C if s_[0] in LAYOUT_SNIPPETS]
     chk.map(lambda s_: snippet_case(chk, s_), sn, budget_s=600)
     chk.map(lambda i: cxx_case(chk, i), range(chk.pick(40, 400)), budget_s=chk.pick(200, 1200))
